@@ -73,4 +73,12 @@ BENIGN = [
                 return Err(HpkeError::OpenError);
             }
 """)]),
+    dict(name='b-single-shot-let-binding', props=['C14', 'C06'],
+         edits=[(SINGLE, """    // Decrypt
+    aead_ctx.open(ciphertext, aad)""", """    // Decrypt
+    let pt = aead_ctx.open(ciphertext, aad)?;
+    Ok(pt)""")]),
+    dict(name='b-seal-msg-len-var', props=['C14', 'C06', 'C04'],
+         edits=[(AEAD, "let tag = self.seal_in_place_detached(&mut buf[..plaintext.len()], aad)?;",
+                 "let tag = self.seal_in_place_detached(&mut buf[..msg_len], aad)?;")]),
 ]
